@@ -34,7 +34,7 @@ CHECKS = {
          "section equals the same edit on a plain node list and appears in the page at the section's place; an edit through the page "
          "is the plain-list edit; every other section stays a valid, readable view related to its old content by a chain of splices "
          "that only delete or insert the edit's own new nodes (so it gains nothing from outside); validity holds after any sequence "
-         "of edits. Each Wikicode call (insert/append/set/remove/replace/insert_before/insert_after by index, node or view) is "
+         "of edits; page.append/extend reaches every section that ran to the end of the page. Each Wikicode call (insert/append/set/remove/replace/insert_before/insert_after by index, node or view) is "
          "modelled as the list operations the code performs; tied to /repo by comparing page and section contents/bounds after "
          "every call on parsed pages with get_sections views; string targets and nested edits are checked by the oracle only.",
     design_ref="DESIGN.md section 5, C11",
